@@ -54,6 +54,7 @@ type recClient struct {
 	deflt   int
 	doCount int64
 	yield   bool
+	calls   map[string]int // attempts seen per URL (for the flaky outcome classes)
 }
 
 func (c *recClient) Do(req *http.Request) (*http.Response, error) {
@@ -70,6 +71,22 @@ func (c *recClient) Do(req *http.Request) (*http.Response, error) {
 	st, ok := c.plan[cp.URL]
 	if !ok {
 		st = c.deflt
+	}
+	if c.calls == nil {
+		c.calls = map[string]int{}
+	}
+	c.calls[cp.URL]++
+	switch st {
+	case -10: // the first attempt to this URL succeeds, every later one fails
+		st = 200
+		if c.calls[cp.URL] > 1 {
+			st = 503
+		}
+	case -11: // the first attempt fails, later ones succeed
+		st = 503
+		if c.calls[cp.URL] > 1 {
+			st = 200
+		}
 	}
 	c.mu.Unlock()
 	atomic.AddInt64(&c.doCount, 1)
@@ -651,10 +668,24 @@ func runBatch(e *env, recipients []string, plan map[string]int, tag string) {
 		e.viol("signer-used-concurrently", "POST signer", cas, "two SignRequest calls overlapped on one signer")
 	}
 	var failed []string
+	listed := map[string]int{}
+	for _, r := range recipients {
+		listed[r]++
+	}
 	for _, r := range recipients {
 		st, ok := plan[r]
 		if !ok {
 			st = 200
+		}
+		switch st {
+		case -10: // fails from the second attempt on: a failure iff listed twice or more
+			if listed[r] >= 2 {
+				failed = append(failed, r)
+			}
+			continue
+		case -11: // the first attempt fails whatever happens later
+			failed = append(failed, r)
+			continue
 		}
 		if !(st == 200 || st == 201 || st == 202) {
 			failed = append(failed, r)
@@ -723,6 +754,30 @@ func runBatches(e *env, seed int64, nRandom int) {
 		}
 		runBatch(e, rec, plan, fmt.Sprintf("allfail%d", n))
 	}
+	// one recipient listed several times whose attempts have different
+	// outcomes (the first succeeds and the rest fail, or the reverse), alone
+	// and among others: every listed occurrence is attempted, a failure of
+	// any attempt makes the batch fail and is named. Which list position
+	// meets which outcome is up to the scheduler, hence the repetitions.
+	for rep := 0; rep < 40; rep++ {
+		for _, k := range []int{2, 3, 4} {
+			for _, code := range []int{-10, -11} {
+				u := fmt.Sprintf("https://dup%d.example/inbox/%d", k, rep)
+				plan := map[string]int{u: code}
+				var rec []string
+				if rep%2 == 1 {
+					rec = append(rec, fmt.Sprintf("https://other%d.example/inbox", rep))
+				}
+				for j := 0; j < k; j++ {
+					rec = append(rec, u)
+				}
+				if rep%3 == 2 {
+					rec = append(rec, fmt.Sprintf("https://last%d.example/inbox", rep))
+				}
+				runBatch(e, rec, plan, fmt.Sprintf("flaky%d-%d-%d", k, code, rep))
+			}
+		}
+	}
 	// large mixed batches: every k-th recipient fails, duplicates among the
 	// failing ones, hosts with IPv6 literals and explicit default ports
 	for _, n := range []int{48, 96, 200} {
@@ -769,6 +824,8 @@ func runBatches(e *env, seed int64, nRandom int) {
 					plan[u] = 100 + g.Intn(500)
 				} else if g.Chance(1, 6) {
 					plan[u] = -1
+				} else if g.Chance(1, 8) {
+					plan[u] = []int{-10, -11}[g.Intn(2)]
 				} else if g.Chance(1, 8) {
 					plan[u] = -2
 				} else if g.Chance(1, 10) {
